@@ -89,6 +89,18 @@ class BatcherRoles:
                         self.process = f
                 if n.kind == 'call' and call_name(g, n.ast) == 'asyncio.wait_for' and f is not self.call:
                     self.assemble = f
+            if self.assemble is None and f is not self.call and f.is_async and f is not self.init:
+                # (unreachable or removed timed wait: the assembler is still the coroutine that dequeues)
+                for x in own_nodes(f.node):
+                    if isinstance(x, ast.Call) and isinstance(x.func, ast.Attribute) and x.func.attr in ('get', 'get_nowait') \
+                            and self_attr(x.func.value) == self.workq or (
+                            isinstance(x, ast.Call) and isinstance(x.func, ast.Attribute) and x.func.attr in ('get', 'get_nowait')
+                            and isinstance(x.func.value, ast.Name) and any(
+                                isinstance(y, ast.Assign) and isinstance(y.targets[0], ast.Name) and y.targets[0].id == x.func.value.id
+                                and self_attr(y.value) == self.workq for y in own_nodes(f.node))):
+                        cand_asm = f
+                        if getattr(self, '_asm_fallback', None) is None:
+                            self._asm_fallback = f
         for f in [s for s in u.functions() if s.enclosing_class() is cls]:
             g = build(f, p)
             for n in g.nodes:
@@ -96,6 +108,15 @@ class BatcherRoles:
                     info = callee_info(g, n.ast)
                     if info['kind'] == 'package' and self.assemble in info.get('scopes', []):
                         self.dispatch = f
+        if self.assemble is None and getattr(self, '_asm_fallback', None) is not None:
+            self.assemble = self._asm_fallback
+            for f in [s for s in u.functions() if s.enclosing_class() is cls]:
+                g = build(f, p)
+                for n in g.nodes:
+                    if n.kind == 'call':
+                        info = callee_info(g, n.ast)
+                        if info['kind'] == 'package' and self.assemble in info.get('scopes', []):
+                            self.dispatch = f
         missing = [k for k in ('workq', 'ret', 'process', 'assemble', 'dispatch') if getattr(self, k) is None]
         if missing:
             raise AnalysisError(f'batcher roles not found: {missing}')
@@ -518,7 +539,7 @@ def c10(ctx: Ctx) -> None:
     p = r.p
     ctx.trusted += ['asyncio.Queue FIFO order, asyncio.Semaphore, wait_for']
     ctx.rule('C10-R1', 'every growth of the batch list is preceded (since the previous growth) by the guard len(list) < max_batch_size; bulk growth is bounded by max_batch_size - len(list) with no suspension in between', 3)
-    ctx.rule('C10-R2', 'every batch handed on is non-empty (the closed-loop `return []` is the one tabled exception)', 2)
+    ctx.rule('C10-R2', 'every batch handed on is non-empty (the closed-loop `return []` is the one tabled exception)', 1)
     ctx.rule('C10-R3', 'the batch function is called only inside `async with <semaphore>`; the semaphore is built once from max_concurrent_batches', 2)
     ctx.rule('C10-R4', 'FIFO: asyncio.Queue, list only appended/extended, order-preserving argument list, a single assembler in a single dispatcher', 4)
     ctx.rule('C10-R5', 'the only bounded wait is wait_for(queue.get(), self.batch_timeout); its TimeoutError ends the batch; the first get is unbounded', 2)
@@ -843,16 +864,37 @@ def c11(ctx: Ctx) -> None:
         if n.kind == 'branch' and isinstance(n.meta['test'], ast.Compare) and any(
                 self_attr(x) == 'retention_timeout' for x in ast.walk(n.meta['test'])):
             t = n.meta['test']
+            # evaluate the comparison for sample windows: every positive value must go one way, 0 the other
+            def ev_(val):
+                try:
+                    def side(e):
+                        if self_attr(e) == 'retention_timeout':
+                            return val
+                        if isinstance(e, ast.Constant) and isinstance(e.value, (int, float)) and not isinstance(e.value, bool):
+                            return e.value
+                        if isinstance(e, ast.UnaryOp) and isinstance(e.op, ast.USub) and isinstance(e.operand, ast.Constant):
+                            return -e.operand.value
+                        raise ValueError
+                    if len(t.ops) != 1:
+                        return None
+                    l_, r__ = side(t.left), side(t.comparators[0])
+                    return {ast.Lt: l_ < r__, ast.LtE: l_ <= r__, ast.Gt: l_ > r__, ast.GtE: l_ >= r__, ast.Eq: l_ == r__,
+                            ast.NotEq: l_ != r__}.get(type(t.ops[0]))
+                except ValueError:
+                    return None
+            pos_vals = [ev_(x) for x in (0.001, 0.5, 1, 2, 3600)]
+            zero_val = ev_(0)
             pos_edge = None
-            if len(t.ops) == 1 and self_attr(t.left) == 'retention_timeout' and isinstance(t.comparators[0], ast.Constant) \
-                    and t.comparators[0].value == 0:
-                if isinstance(t.ops[0], ast.Gt):
-                    pos_edge = 'true'
-                elif isinstance(t.ops[0], ast.LtE):
-                    pos_edge = 'false'
-            if pos_edge is None:
+            if None in pos_vals or zero_val is None:
                 ctx.undecided('C11-R3', f'retention test {norm(t)}', g.loc(n), 'unrecognised comparison')
                 continue
+            if len(set(pos_vals)) != 1 or zero_val == pos_vals[0]:
+                ctx.violation('C11-R3', f'retention test {norm(t)}', g.loc(n),
+                              'the test does not separate "a window was asked for" (any positive value) from "no retention" (0): '
+                              'some windows are dropped at once, or a zero window still remembers the result for a loop iteration',
+                              construct=construct_key(r.call.qualname, 'retention branch', t))
+                continue
+            pos_edge = 'true' if pos_vals[0] else 'false'
             other = 'false' if pos_edge == 'true' else 'true'
             rp = reach(g, [], start_edges=[e for e in g.succ[n.id] if e.label == pos_edge])
             rn = reach(g, [], start_edges=[e for e in g.succ[n.id] if e.label == other])
@@ -861,6 +903,13 @@ def c11(ctx: Ctx) -> None:
             ctx.check('C11-R3', f'{norm(t)}: >0 -> delayed eviction, <=0 -> immediate', g.loc(n), okp and okn,
                       'window honoured', 'retention window ignored or inverted',
                       construct=construct_key(r.call.qualname, 'retention branch', t))
+    reach_all = reach(g, [g.entry])
+    now_ok = any(x.id in reach_all for x in evict_now)
+    later_ok = any(x.id in reach_all for x in evict_later)
+    ctx.check('C11-R3', f'both forms of eviction are reachable (immediate: {now_ok}, delayed: {later_ok})', f'{FILE}:{r.call.lineno}', now_ok and later_ok,
+              'a zero window forgets at once, a positive one after the window',
+              'one of the two forms is missing: either retention_timeout = 0 still remembers results for a while, or a positive window is not honoured',
+              construct=construct_key(r.call.qualname, 'eviction forms', now_ok, later_ok))
     v = r.attr_ctor.get('retention_timeout')
     ctx.check('C11-R3', f'self.retention_timeout = {norm(v) if v is not None else None}', f'{FILE}:{r.init.lineno}',
               isinstance(v, ast.Name) and v.id == 'retention_timeout', 'constructor option stored unchanged',
